@@ -160,6 +160,14 @@ def run(ctx, report: Report) -> None:
                                  f'that saves / restores the same setting interleaves with this one): concurrent calls can fail or leave the '
                                  f'setting changed')
     # ---- module / class level objects written from functions ------------------------------------------------
+    try:
+        from ..callgraph import CallGraph
+        cg_ = ctx.get('callgraph', lambda: CallGraph(ctx.types, src))
+        entries_ = [f'__init__.{q_}' for q_ in src.mods['__init__'].functions] + [f'css_match.{q_}' for q_ in src.mods['css_match'].functions
+                                                                                   if q_.startswith('SoupSieve.')]
+        api_reach = cg_.reachable(entries_)
+    except Exception:       # noqa: BLE001  (no call graph: every function counts as reachable)
+        api_reach = None
     for mn, mod in src.mods.items():
         modlevel = set()
         for st in mod.tree.body:
@@ -201,6 +209,11 @@ def run(ctx, report: Report) -> None:
                     if b == 'cls' and isinstance(n.func.value, ast.Attribute):
                         hits.append(unparse(n.func))
                 for h in hits:
+                    if api_reach is not None and f'{mn}.{q}' not in api_reach and not any(r.startswith(f'{mn}.{q}.') for r in api_reach):
+                        # not reachable from compile / select / match / filter / closest / purge ...: the function runs while the
+                        # package is imported (under the import lock), never during a call the property speaks of
+                        r1.instance({'function': f'{mn}.{q}', 'writes_module_or_class_state': h, 'reachable_from_the_api': False}, key=f'{mn}.{q}|{h}')
+                        continue
                     r1.instance({'function': f'{mn}.{q}', 'writes_module_or_class_state': h}, key=f'{mn}.{q}|{h}')
                     r1.violation(f'{mn}.{q} writes {h}', mod.where(n),
                                  f'{mn}.{q} writes `{h}`, a module- or class-level object shared by all threads')
@@ -326,7 +339,9 @@ def run(ctx, report: Report) -> None:
                 continue
             n_cached += 1
             ret = unparse(fn.returns) if fn.returns is not None else '?'
-            ok = ret in IMMUTABLE_RETURNS
+            ok = ret in IMMUTABLE_RETURNS or (fn.returns is not None and {x.id for x in ast.walk(fn.returns) if isinstance(x, ast.Name)} | {
+                x.attr for x in ast.walk(fn.returns) if isinstance(x, ast.Attribute)} | {str(x.value) for x in ast.walk(fn.returns) if isinstance(x, ast.Constant)}
+                <= IMMUTABLE_RETURNS | {'Optional', 'Union', 'tuple', 'Tuple', 'frozenset', 'FrozenSet', 'Pattern', 'typing', 're', 'Ellipsis', 'Final', 'Literal'})
             cref = src.resolve_class_ref(mod, fn.returns) if fn.returns is not None else None
             if cref in imm:
                 ok = True
